@@ -108,6 +108,7 @@ one_write(uint32_t addr, uint32_t n, const unsigned char *words, const char *pat
         buf = bigbuf;
     }
     memcpy(buf, words, 2 * bn);
+    const unsigned wcalls_before = inst.cb_writes;
     RegisterAccess a = register_block_write(&inst.t, addr, n, buf);
     nwrites++;
     char key[96], ctx[200];
@@ -154,6 +155,10 @@ one_write(uint32_t addr, uint32_t n, const unsigned char *words, const char *pat
     }
     if (!rt_compare_storage(&inst, napp ? "refused-write-changes-table" : "write-image", key, ctx))
         rt_sync_model_from_storage(&inst);
+    /* a refused block write has not written any device behind a callback, not even words it would take back */
+    if (a.code != REG_ACCESS_SUCCESS && inst.cb_writes != wcalls_before)
+        vh_fail("refused-write-writes-device", key, "%s: code=%d, yet write callbacks were called %u times", ctx, a.code,
+                inst.cb_writes - wcalls_before);
     for (int i = 0; i < d->nregs; i++)
         if ((int)register_was_touched(&inst.t, (RegisterHandle)i) != inst.touched[i]) {
             vh_fail("touched-mark", key, "%s: register %d touched=%d model=%d", ctx, i,
